@@ -367,4 +367,19 @@ def run_grid(ctx):
     ctx.extra["routes_taken"] = dict(ROUTES)
 
 
-SUBCHECKS = {"kernels": {"run": run, "execute": exec_case}, "grid": {"run": run_grid, "execute": exec_case}}
+def _order():
+    from checks import prelude
+
+    return prelude.make_order(cases(), exec_case, lambda c: [c["dtype"], c["act"], c["wq"], c["entry"], c["rows"] > 16, c["inf"] % 16 == 0])
+
+
+def run_order(ctx):
+    strategy, execute = _order()
+    drive(ctx, strategy, execute, max(1, int(ctx.params["n"] * ctx.params.get("scale", 1))))
+
+
+def exec_order(case):
+    return _order()[1](case)
+
+
+SUBCHECKS = {"kernels": {"run": run, "execute": exec_case}, "grid": {"run": run_grid, "execute": exec_case}, "order": {"run": run_order, "execute": exec_order}}
